@@ -88,6 +88,12 @@ type TailStructs struct {
 	T []Inner `rlp:"tail"`
 }
 
+// optional pointers inside reused slice elements and tail elements
+type TailNil struct {
+	A uint64
+	T []NilStruct `rlp:"tail"`
+}
+
 type Ignored struct {
 	A uint64
 	X uint64 `rlp:"-"`
@@ -206,6 +212,8 @@ var targets = []*target{
 	{Name: "Tail{uint64,[]uint64`tail`}", T: tOf(new(Tail))},
 	{Name: "TailBytes{[1]byte,[][]byte`tail`}", T: tOf(new(TailBytes))},
 	{Name: "TailStructs{string,[]Inner`tail`}", T: tOf(new(TailStructs))},
+	{Name: "[]NilAddr", T: tOf(new([]NilAddr))},
+	{Name: "TailNil{uint64,[]NilStruct`tail`}", T: tOf(new(TailNil))},
 	{Name: "Ignored{uint64,-,[]byte,bool}", T: tOf(new(Ignored))},
 	{Name: "Ptrs{*uint64,*Inner,*[20]byte,*[]byte,*big.Int}", T: tOf(new(Ptrs))},
 	{Name: "Outer", T: tOf(new(Outer))},
